@@ -284,6 +284,23 @@ fn ast_macro(m: &syn::Macro) -> J {
     match name.as_str() {
         "panic" | "unreachable" => a("panic", vec![s(&name)]),
         "quote" => a("quote", vec![s(norm(&m.tokens))]),
+        "assert" => match m.parse_body::<syn::Expr>() {
+            Ok(e) => a("assert", vec![ast_expr(&e)]),
+            Err(_) => a("unsupported", vec![jn(m)]),
+        },
+        "emit_error" => {
+            // the first string literal among the arguments is the message
+            let mut msg = String::new();
+            for tt in m.tokens.clone() {
+                if let proc_macro2::TokenTree::Literal(l) = &tt {
+                    if let Ok(ls) = syn::parse_str::<syn::LitStr>(&l.to_string()) {
+                        msg = ls.value();
+                        break;
+                    }
+                }
+            }
+            a("emit_error", vec![s(msg)])
+        }
         "format" => {
             struct F(syn::LitStr);
             impl syn::parse::Parse for F {
@@ -434,7 +451,8 @@ fn ast_stmt(st: &syn::Stmt) -> J {
                 None => (J::Null, false),
             };
             if has_else {
-                a("unsupported", vec![jn(st)])
+                let els = l.init.as_ref().and_then(|i| i.diverge.as_ref()).map(|(_, e)| ast_expr(e)).unwrap_or(J::Null);
+                a("sletelse", vec![ast_pat(&l.pat), init, els])
             } else {
                 a("slet", vec![ast_pat(&l.pat), init])
             }
